@@ -336,8 +336,18 @@ impl<K: CacheKey + 'static> DiskCache<K> {
             .await
             .map_err(|_| CacheError::Backend("Failed to acquire I/O semaphore".to_string()))?;
 
-        // Write to temporary file first for atomicity
-        let temp_path = path.with_extension("tmp");
+        // Write to temporary file first for atomicity. The temporary name is
+        // the complete file name plus a unique ".tmp" suffix: replacing the
+        // extension made "a.x", "a.y" and "a.tmp" share one temporary file,
+        // as did all concurrent writers of one key.
+        static TEMP_COUNTER: AtomicU64 = AtomicU64::new(0);
+        let mut temp_name = path.as_os_str().to_owned();
+        temp_name.push(format!(
+            ".{}.{}.tmp",
+            std::process::id(),
+            TEMP_COUNTER.fetch_add(1, Ordering::Relaxed)
+        ));
+        let temp_path = PathBuf::from(temp_name);
 
         // Ensure parent directory exists
         if let Some(parent) = temp_path.parent() {
